@@ -82,6 +82,37 @@ let parse_cases (s : string) : ecase list =
       | _ -> raise (Bad ("case " ^ c)))
     (String.split_on_char '|' s)
 
+(* container types over the enum of the line: rty syntax plus E (the enum) at the leaves *)
+let parse_cty (cs : ecase list) (s : string) : cty =
+  let n = String.length s in
+  let pos = ref 0 in
+  let rec one () : cty =
+    let c = s.[!pos] in
+    incr pos;
+    match c with
+    | 'E' -> CEnum (GDerive, cs)
+    | 'a' ->
+        if !pos < n && s.[!pos] = '{' then begin
+          incr pos;
+          let k = base_of_type (one_type (String.make 1 s.[!pos])) in
+          incr pos;
+          let v = one () in
+          if s.[!pos] <> '}' then raise (Bad "}");
+          incr pos;
+          CMap (k, v)
+        end else CVec (one ())
+    | '(' -> let fs = many ')' in CTuple fs
+    | '<' -> let fs = many '>' in CDerived fs
+    | c -> CPlain (RBase (base_of_type (one_type (String.make 1 c))))
+  and many close =
+    let fields = ref [] in
+    while s.[!pos] <> close do fields := one () :: !fields done;
+    incr pos;
+    List.rev !fields
+  in
+  let x = one () in
+  if !pos <> n then raise (Bad ("container type " ^ s)) else x
+
 let parse_val (toks : string array) (pos : int ref) : val0 =
   let next () = let t = toks.(!pos) in incr pos; t in
   let rec go () : val0 =
@@ -184,6 +215,20 @@ let eval (line : string) : string =
                | x -> edres_str ~inner:true (fun _ -> af r.eo_d_after) x) in
       Printf.sprintf "%s read:D=%s read:S=%s read:M=%s" (enc_field "V" r.eo_body) d
         (edres_str ~inner:true (fun _ -> af r.eo_s_after) r.eo_s) (edres_str ~inner:true (fun _ -> af r.eo_m_after) r.eo_m)
+  | "EC" ->
+      let cs = parse_cases (next ()) in
+      let x = parse_cty cs (next ()) in
+      let be = be_of (next ()) in
+      let prefix = int_of_string (next ()) in
+      let v = parse_val toks pos in
+      let name = function CApiD -> "D" | CApiS -> "S" | CApiM -> "M" | CApiPV -> "Q" | CApiP -> "P" in
+      let cd = function
+        | CDVal (Some v, t) -> Printf.sprintf "ok,%s,%s" (tr t) (vtoks v)
+        | CDVal (None, t) -> Printf.sprintf "ok,%s,CATCH" (tr t)
+        | CDWrongSig -> "wrongsig" | CDEnd -> "end" | CDErr -> "err" | CDBad -> "bad" in
+      let res = op_container be (nat_of_int prefix) x v in
+      String.concat " " (List.concat_map (fun ((a, e), decs) ->
+          enc_field (name a) e :: List.map (fun (d, r) -> Printf.sprintf "dec:%s%s=%s" (name a) (name d) (cd r)) decs) res)
   | _ -> "?"
 
 let () =
